@@ -191,6 +191,22 @@ impl<L: Language> RuleCore<L> {
     }
   }
 
+  /// Variables a match of this rule binds to nodes: the captures of the rule, its local utilities
+  /// and its constraints. Unlike `defined_vars` this leaves out the keys of `transform`: a
+  /// transformed text is no node and is not visible to the fix of a rewriter.
+  pub fn captured_vars(&self) -> HashSet<&str> {
+    let mut ret = self.rule.defined_vars();
+    for v in self.registration.get_local_util_vars() {
+      ret.insert(v);
+    }
+    for constraint in self.constraints.values() {
+      for var in constraint.defined_vars() {
+        ret.insert(var);
+      }
+    }
+    ret
+  }
+
   pub fn defined_vars(&self) -> HashSet<&str> {
     let mut ret = self.rule.defined_vars();
     for v in self.registration.get_local_util_vars() {
